@@ -25,6 +25,12 @@ F_seal = z3.Function("seal", ISEQ, ISEQ, ISEQ, ISEQ, ISEQ)  # (key, nonce, aad, 
 P_open_ok = z3.Function("open_ok", ISEQ, ISEQ, ISEQ, ISEQ, B)  # (key, nonce, aad, ct)
 F_open_pt = z3.Function("open_pt", ISEQ, ISEQ, ISEQ, ISEQ, ISEQ)
 F_sha512 = z3.Function("sha512", ISEQ, ISEQ)
+# the pure-Python ChaCha20/Poly1305 package used for the 4-byte partial tag of BLE broadcast notifications
+F_otk = z3.Function("poly1305_otk", ISEQ, ISEQ, ISEQ)  # (key, nonce) -> one-time key
+F_poly = z3.Function("poly1305_tag", ISEQ, ISEQ, ISEQ)  # (one-time key, message) -> 16-byte tag
+F_chacha = z3.Function("chacha20_xor", ISEQ, ISEQ, I, ISEQ, ISEQ)  # (key, nonce, initial counter, data)
+F_zeros = z3.Function("zeros", I, ISEQ)
+TRUSTED_PURE = "pure-Python chacha20poly1305 package (ChaCha block function, Poly1305, pad16) as function symbols: poly1305_otk, poly1305_tag (16 bytes), chacha20_xor (length preserving), zeros(n)"
 
 TRUSTED = "symbolic crypto model: Ed25519/X25519/HKDF-SHA512/ChaCha20-Poly1305 as ideal function symbols (EUF-CMA, INT-CTXT, PRF not verified)"
 
@@ -240,6 +246,61 @@ def install(env):
     from cryptography.hazmat.primitives.ciphers.aead import ChaCha20Poly1305 as _CC
 
     env.stub(_CC, mk_aead)
+    # ---- third-party pure-Python primitives (partial-tag open)
+    import chacha20poly1305 as _pure
+
+    def _otk(it, key, nonce):
+        t = F_otk(bt(key), bt(nonce))
+        it.ctx.assume(z3.Length(t) == 32)
+        it.env.assumptions_used.add(TRUSTED_PURE)
+        return ops.mk_bytes(t, True)
+
+    env.stub(_pure.ChaCha20Poly1305.poly1305_key_gen, _otk)
+
+    def _pad16(it, data):
+        n = z3.Length(bt(data))
+        t = F_zeros((16 - n % 16) % 16)
+        it.ctx.assume(z3.Length(t) == (16 - n % 16) % 16)
+        it.env.assumptions_used.add(TRUSTED_PURE)
+        return ops.mk_bytes(t, True)
+
+    env.stub(_pure.ChaCha20Poly1305.pad16, _pad16)
+
+    class PolyObj(StubObj):
+        def __init__(self, k):
+            self.k = k
+
+        def m_create_tag(self, it, data):
+            t = F_poly(bt(self.k), bt(data))
+            it.ctx.assume(z3.Length(t) == 16)
+            it.env.assumptions_used.add(TRUSTED_PURE)
+            return ops.mk_bytes(t, True)
+
+    env.stub(_pure.Poly1305, lambda it, key: PolyObj(key))
+
+    class ChaChaObj(StubObj):
+        def __init__(self, key, nonce, counter):
+            self.key, self.nonce, self.counter = key, nonce, counter
+
+        def m_decrypt(self, it, data):
+            t = F_chacha(bt(self.key), bt(self.nonce), ops.int_term(self.counter), bt(data))
+            it.ctx.assume(z3.Length(t) == z3.Length(bt(data)))
+            it.env.assumptions_used.add(TRUSTED_PURE)
+            return ops.mk_bytes(t, True)
+
+        m_encrypt = m_decrypt
+
+    env.stub(_pure.ChaCha, lambda it, key, nonce, counter=0, rounds=20: ChaChaObj(key, nonce, counter))
+
+    from aiohomekit.crypto.chacha20poly1305 import ChaCha20Poly1305PartialTag
+    from .values import SObj
+
+    def _mk_partial(it, key, implementation="python"):
+        it.require(z3.Length(bt(key)) == 32, ValueError, "Key must be 256 bit long")
+        it.env.assumptions_used.add(TRUSTED_PURE)
+        return SObj(ChaCha20Poly1305PartialTag, {"key": key})
+
+    env.stub(ChaCha20Poly1305PartialTag, _mk_partial)
     env.crypto = {
         "seal": seal_term, "open": open_terms, "hkdf": hkdf_term, "DeriveFn": DeriveFn,
         "XPrivateKey": XPrivateKey, "EdPrivateKey": EdPrivateKey,
